@@ -19,8 +19,9 @@ import (
 const pageSz = 4096
 
 type roundInfo struct {
-	opsEnd   int // number of recorded ops when the round had completed
-	nbatches int // batches covered by the store content after the round
+	opsEnd   int  // number of recorded ops when the round had completed
+	nbatches int  // batches covered by the store content after the round
+	synced   bool // the round completed with syncing enabled (false: the NoSync phase of a mixed workload)
 }
 
 type crashWorkload struct {
@@ -28,6 +29,13 @@ type crashWorkload struct {
 	rounds []roundInfo
 	refs   []map[string][]byte // reference content after n batches, n = 0..
 	nosync bool
+	// mixed workload: the first rounds run with syncing enabled, then collection and store are closed
+	// and reopened with StorePersistOptions.NoSync; the images stay machine-crash images and what the
+	// synced rounds covered has to survive whatever the un-synced rounds (a full compaction among
+	// them) do afterwards.  optOut: every compaction sync was switched off explicitly
+	// (CompactionSync false and CompactionSyncAfterBytes < 0).
+	mixed, optOut bool
+	switchOps     int // number of recorded ops at the switch to the NoSync phase
 }
 
 func cloneRef(m map[string][]byte) map[string][]byte {
@@ -60,12 +68,38 @@ func runCrashWorkload(r *rng, dir string) (*crashWorkload, error) {
 		return nil, err
 	}
 	w := &crashWorkload{nosync: cfg.NoSync}
+	rounds := 2 + r.intn(5)
+	switchAt := -1
+	if !cfg.NoSync && r.chance(1, 3) {
+		w.mixed = true
+		switchAt = 1 + r.intn(rounds-1)
+		w.optOut = !cfg.CompactionSync && cfg.SyncAfterBytes < 0
+	}
+	forceInPhase2 := r.chance(1, 2)
+	syncedPhase := true
 	ref := map[string][]byte{}
 	w.refs = append(w.refs, cloneRef(ref))
 	nb := 0
-	rounds := 2 + r.intn(5)
 	wide := r.chance(1, 3)
 	for round := 0; round < rounds; round++ {
+		if round == switchAt {
+			// from here on: no syncing (a new session of the application with other persist options)
+			c.Close()
+			s.Close()
+			sleepMicros(5000)
+			h.files.mu.Lock()
+			w.switchOps = len(h.files.ops)
+			h.files.mu.Unlock()
+			po.NoSync = true
+			if forceInPhase2 {
+				po.CompactionConcern = moss.CompactionForce
+			}
+			syncedPhase = false
+			s, c, err = moss.OpenStoreCollection(dir, so, po)
+			if err != nil {
+				return nil, err
+			}
+		}
 		b, _ := c.NewBatch(0, 0)
 		cnt := 0
 		for _, k := range baseUniverse {
@@ -129,7 +163,7 @@ func runCrashWorkload(r *rng, dir string) (*crashWorkload, error) {
 		waitPersisted(c)
 		sleepMicros(300)
 		h.files.mu.Lock()
-		w.rounds = append(w.rounds, roundInfo{opsEnd: len(h.files.ops), nbatches: nb})
+		w.rounds = append(w.rounds, roundInfo{opsEnd: len(h.files.ops), nbatches: nb, synced: syncedPhase})
 		h.files.mu.Unlock()
 		// now and then: revert to the previous footer (collection closed, as documented) and go on;
 		// the reverted state counts as one more completed step of the history
@@ -147,7 +181,7 @@ func runCrashWorkload(r *rng, dir string) (*crashWorkload, error) {
 					nb++
 					w.refs = append(w.refs, cloneRef(ref))
 					h.files.mu.Lock()
-					w.rounds = append(w.rounds, roundInfo{opsEnd: len(h.files.ops), nbatches: nb})
+					w.rounds = append(w.rounds, roundInfo{opsEnd: len(h.files.ops), nbatches: nb, synced: syncedPhase})
 					h.files.mu.Unlock()
 				}
 				prev.Close()
@@ -350,6 +384,29 @@ func famCrash(w *bufio.Writer, seed uint64, n int) error {
 		for _, fn := range fileOrder {
 			optrace = append(optrace, perFile[fn])
 		}
+		// the directory-level trace for the model's discipline files_ok (CrashFiles.v): creates, footer
+		// writes, syncs and unlinks of the data files in the order they happened
+		gtrace := []sx{"gtrace"}
+		for _, op := range wl.ops {
+			sq := seqOf(op.File)
+			if sq < 0 || op.Err {
+				continue
+			}
+			switch op.Kind {
+			case "create":
+				gtrace = append(gtrace, L("c", sq))
+			case "sync":
+				gtrace = append(gtrace, L("s", sq))
+			case "remove":
+				gtrace = append(gtrace, L("u", sq))
+			case "write":
+				d := op.Data
+				if len(d) >= 44 && bytes.HasPrefix(d, moss.StoreMagicBeg) && bytes.HasPrefix(d[len(moss.StoreMagicBeg):], moss.StoreMagicBeg) &&
+					int64(binary.LittleEndian.Uint64(d[len(d)-24:len(d)-16])) == op.Off {
+					gtrace = append(gtrace, L("f", sq))
+				}
+			}
+		}
 		// crash points: every op boundary of interest + torn writes
 		var points [][2]int
 		for p := 0; p <= len(wl.ops); p++ {
@@ -401,7 +458,7 @@ func famCrash(w *bufio.Writer, seed uint64, n int) error {
 			// what must have survived
 			nSynced, nIssued := 0, 0
 			for _, ri := range wl.rounds {
-				if ri.opsEnd <= pt[0] {
+				if ri.opsEnd <= pt[0] && ri.synced {
 					nSynced = ri.nbatches
 				}
 			}
@@ -470,7 +527,8 @@ func famCrash(w *bufio.Writer, seed uint64, n int) error {
 			emit(L("case", caseID, int64(cs), L("cfg", L("nosync", wl.nosync), L("point", pt[0], pt[1]), L("strategy", strategy),
 				L("nops", len(wl.ops))), L("universe", L())))
 			emit(L("crash", fl, L("opened", opened), L("prefix", prefix), L("nsynced", nSynced), L("nissued", nIssued),
-				L("footer", seqOf(fname), fpos), L("err", fmt.Sprintf("%q", errText)), L("nosync", wl.nosync), optrace))
+				L("footer", seqOf(fname), fpos), L("err", fmt.Sprintf("%q", errText)), L("nosync", wl.nosync), L("mixed", wl.mixed), L("syncoptout", wl.optOut),
+				L("partialwb", wl.mixed && pt[0] > wl.switchOps && (pt[1] > 0 || (strategy != 0 && strategy != 1))), optrace, gtrace))
 			emit(L("end"))
 			caseID++
 		}
